@@ -168,7 +168,7 @@ func (rg *rootGeneratorPipeline) worker(ctx context.Context, wg *sync.WaitGroup,
 				currentNode, err := rg.nodeGenerator.generate(sc.Text(), counter.next())
 				if err != nil {
 					verifPoint("gen.err")
-					errc <- err
+					sendErr(ctx, errc, err)
 					return
 				}
 
@@ -184,19 +184,19 @@ func (rg *rootGeneratorPipeline) worker(ctx context.Context, wg *sync.WaitGroup,
 
 				if nodes == nil {
 					verifPoint("gen.err")
-					errc <- errNilStack
+					sendErr(ctx, errc, errNilStack)
 					return
 				}
 
 				if !nodes.dfs(currentNode) {
 					verifPoint("gen.err")
-					errc <- &inputFormatError{row: sc.Text()}
+					sendErr(ctx, errc, &inputFormatError{row: sc.Text()})
 					return
 				}
 			}
 			if err := sc.Err(); err != nil {
 				verifPoint("gen.err")
-				errc <- err
+				sendErr(ctx, errc, err)
 				return
 			}
 			if root == nil {
